@@ -23,24 +23,28 @@ LEVEL_NOTE = ('relations only: the absolute value of the refractive index, of th
               'threshold are don\'t-care when a unit conversion or float32 rounding sits between the menu value and the comparison')
 RULE = ('air/vac: every menu wavelength (log lattice 100 A..30 um plus threshold neighbours) x every scalar form (float, int, np.float64, '
         'np.float32, 0-d array, scalar Quantity in A/nm/um/m) and every menu block as array (1-D, reversed, 2-D, strided view, float32, int64, '
-        'Quantity A/nm/um) x {airtovac, vactoair}; non-trivial = at least one element >= 2000 A (a conversion happens). '
-        'sdssflux2ab: every single row of {0.5,1,20}^5, every ordered pair of rows of a sub-menu and rotated stacks of 3..6 rows x {flux, magnitude, ivar} x {f8,f4}; '
+        'Quantity A/nm/um; memory layouts: Fortran-ordered 2-D/3-D, transposed and non-contiguous transposed views, 2-D strided view, big-endian, '
+        'read-only, Fortran-ordered float32 and Quantity) x {airtovac, vactoair}; non-trivial = at least one element >= 2000 A (a conversion happens). '
+        'sdssflux2ab: every single row of {0.5,1,20}^5, every ordered pair of rows of a sub-menu and rotated stacks of 3..6 rows (these also in 6 memory layouts) x {flux, magnitude, ivar} x {f8,f4}; '
         'non-trivial = row not constant across bands or more than one row. '
         'filter_thru: every unordered pair of comb impulses x coefficient menu x (wavelength solution, image/trace-set form, dtype, toair, mask) '
+        '(solutions include wing3: traces reaching only 3-6 pixels into a band wing, summed weight ~1e-6 of the band), a reduced relation set in 5 memory layouts of flux/waveimg/mask, '
         'and every single masked run of 1..10 pixels starting on the comb x wild values; non-trivial = at least one band overlapped by the trace. '
         'Distinct = distinct (function, input, form/configuration) tuples.')
 ASSUMPTIONS = ['every trace passed to filter_thru keeps at least one unmasked pixel (with none the answer is undefined; the code then integrates the masked values)',
                'float64 forms: inverse relations to 1e-6 A as stated; agreement between forms to 1e-12 relative (unit-conversion rounding)',
                'float32 forms are compared at 1e-6 relative; a float32 cannot hold 1e-6 A at 5000 A',
                'filter_thru clauses are evaluated only in bands that at least one pixel of the trace overlaps by more than 5 A inside the '
-               'tabulated support; bands within 5 A of the edge of the support are don\'t-care; in bands without overlap no value is demanded',
+               'tabulated support and the trace\'s summed weight in the band (lower bound) exceeds 1e-8 of the whole band; thinner or edge-grazing overlaps are counted don\'t-care; in bands without overlap no value is demanded',
                'filter_thru tolerance 1e-9 x (sum of |coefficients|) for float64 flux, 2e-5 for float32 flux',
                'a pixel whose wavelength lies more than 5 A outside the tabulated support of a band must get zero weight in that band',
                'lists and other non-array sequences are outside the claim (float, array and Quantity input only)']
 
 UNIT_FAC = {'AA': 1.0, 'nm': 10.0, 'um': 1.0e4, 'm': 1.0e10}      # Angstrom per unit
 SCALAR_FORMS = ['float', 'int', 'f64', 'f32', 'arr0', 'q:AA', 'q:nm', 'q:um', 'q:m']
-ARRAY_FORMS = ['a1', 'a1rev', 'a2', 'astride', 'a1f32', 'a1int', 'aq:AA', 'aq:nm', 'aq:um', 'aq2:nm', 'a1len1']
+ARRAY_FORMS = ['a1', 'a1rev', 'a2', 'astride', 'a1f32', 'a1int', 'aq:AA', 'aq:nm', 'aq:um', 'aq2:nm', 'a1len1',
+               # memory layouts: Fortran order, transposed / strided 2-D views, 3-D Fortran, big-endian, read-only
+               'a2F', 'a2T', 'a2Tnc', 'a2stride', 'a3F', 'abig', 'a2Fbig', 'aro', 'a2Fro', 'a2Ff32', 'aqF:AA', 'aqF:nm', 'aqT:um']
 THRESH = 2000.0
 BAND = 1.0e-6
 
@@ -106,6 +110,50 @@ def build_input(form, wl):
     if form == 'a1int':
         x = np.round(w).astype(np.int64)
         return x, x.astype(np.float64), 1.0, 0.0
+    if form in ('a2F', 'a2T', 'a2Tnc', 'a2stride', 'a3F', 'abig', 'a2Fbig', 'aro', 'a2Fro', 'a2Ff32') or form.startswith(('aqF', 'aqT')):
+        w = w[:len(w) - len(w) % 4]
+        if len(w) < 4:
+            return None
+        fac, rel, un = 1.0, 0.0, None
+        if form.startswith('aq'):
+            un = form.split(':')[1]
+            fac, rel = UNIT_FAC[un], 1e-12
+        if form in ('a2F', 'a2Fbig', 'a2Fro', 'a2Ff32', 'aqF:AA', 'aqF:nm'):
+            W = w.reshape(2, -1)
+            x = np.asfortranarray(W / fac)
+        elif form in ('a2T', 'aqT:um'):
+            W = w.reshape(-1, 2).T
+            x = (w.reshape(-1, 2) / fac).copy().T                 # transposed view of a C array (Fortran-contiguous)
+        elif form == 'a2Tnc':
+            base = np.full((len(w) // 2, 4), 77.0)
+            base[:, :2] = w.reshape(-1, 2)
+            W = w.reshape(-1, 2).T
+            x = base[:, :2].T                                      # transposed + strided view: not contiguous at all
+        elif form == 'a2stride':
+            base = np.full((4, len(w) // 2 * 3), 77.0)
+            base[::2, ::3] = w.reshape(2, -1)
+            W = w.reshape(2, -1)
+            x = base[::2, ::3]
+        elif form == 'a3F':
+            W = w.reshape(2, 2, -1)
+            x = np.asfortranarray(W)
+        else:
+            W = w
+            x = w.copy()
+        if form in ('abig', 'a2Fbig'):
+            x = x.astype('>f8')                                    # astype keeps the memory order ('K')
+        if form == 'a2Ff32':
+            x = x.astype(np.float32)
+            W = x.astype(np.float64)
+            rel = 1e-6
+        if form in ('aro', 'a2Fro'):
+            x.setflags(write=False)
+        if un is not None:
+            x = u.Quantity(x, _unit(un), copy=False)
+        if form in ('a2F', 'a2Fbig', 'a2Fro', 'a2Ff32', 'a3F', 'aqF:AA', 'aqF:nm', 'a2T', 'aqT:um'):
+            v = x.value if un is not None else x
+            assert v.flags.f_contiguous and not v.flags.c_contiguous, form
+        return x, np.array(W, dtype=np.float64), fac, rel
     if form.startswith('aq'):
         un = form.split(':')[1]
         fac = UNIT_FAC[un]
@@ -251,6 +299,19 @@ def check_ab(case):
     dt = np.float64 if case['dtype'] == 'f8' else np.float32
     tol = 1e-12 if case['dtype'] == 'f8' else 2e-6
     x = np.array(case['rows'], dtype=dt)
+    lay = case.get('layout', 'C')
+    if lay == 'F':
+        x = np.asfortranarray(x)
+    elif lay == 'T':
+        x = np.ascontiguousarray(x.T).T
+    elif lay == 'stride':
+        base = np.full((2 * x.shape[0], 15), 77.0, dtype=dt)
+        base[::2, ::3] = x
+        x = base[::2, ::3]
+    elif lay == 'be':
+        x = x.astype(x.dtype.newbyteorder('>'))
+    elif lay == 'ro':
+        x.setflags(write=False)
     bad = []
     # the per-band offset c is defined by the magnitude form acting on a zero row
     try:
@@ -295,7 +356,7 @@ def band_support():
         d = os.path.join(os.path.dirname(pydl.pydlutils.__file__), 'data', 'filters')
         out = []
         for b in 'ugriz':
-            lam, pos = [], []
+            lam, pos, rmin = [], [], []
             with open(os.path.join(d, 'sdss_jun2001_%s_atm.dat' % b)) as f:
                 for ln in f:
                     if ln.startswith('#') or not ln.strip():
@@ -303,10 +364,13 @@ def band_support():
                     t = ln.split()
                     lam.append(float(t[0]))
                     pos.append(any(float(v) > 0 for v in t[1:4]))
+                    rmin.append(min(float(v) for v in t[1:4]))
             ip = [i for i, p in enumerate(pos) if p]
             lo = lam[max(ip[0] - 1, 0)]
             hi = lam[min(ip[-1] + 1, len(lam) - 1)]
-            out.append((lo, hi, lam[0], lam[-1]))
+            la, rm = np.array(lam), np.array(rmin)
+            full = float(np.sum(0.5 * (rm[1:] + rm[:-1]) * np.diff(np.log10(la))))
+            out.append((lo, hi, la, rm / full))
         _bands = out
     return _bands
 
@@ -323,6 +387,9 @@ SOLS = {
     'curv2': (400, [_ll(3500., 10500.) + [0.012], _ll(3600., 10400.) + [-0.015, 0.004]]),
     'rev2': (400, [_ll(11000., 3000.), _ll(9200., 3800.)]),
     'short2': (60, [_ll(4300., 5300.), _ll(8800., 10800.)]),
+    # thin overlaps: a handful of pixels reach into the blue wing of g, the red wing of g, the blue wing of u; summed weight
+    # 3e-8 .. 7e-8 (about 1e-6 of the band), positive but below the float32 machine epsilon
+    'wing3': (400, [_ll(3000., 3639.), _ll(5812., 7000.), _ll(2500., 2992.)]),
 }
 
 
@@ -351,18 +418,33 @@ def comb(nx, c):
     return [int(round((j + 0.5) * nx / c)) for j in range(c)]
 
 
+THIN = 1.0e-8
+
+
 def overlap_table(wave):
-    """per (trace, band): +1 overlapped for sure, 0 not overlapped for sure, -1 don't care; and per pixel 'surely outside'."""
+    """per (trace, band): +1 overlapped for sure, 0 not overlapped for sure, -1 don't care; and per pixel 'surely outside'.
+    Overlapped for sure = some pixel lies more than 5 A inside the tabulated support AND a lower bound of the trace's summed
+    weight in that band (smallest response column, evaluated 3 A nearer the edge to allow for an air/vacuum shift, times
+    |d log10 lambda|, pixels > 5 A inside only) exceeds THIN = 1e-8 of the weight of the whole band: positive and ~8 decades
+    above float64 rounding.  Thinner overlaps are don't-care."""
     sup = band_support()
     nt = wave.shape[0]
     ov = np.zeros((nt, 5), dtype=int)
     outside = np.zeros(wave.shape + (5,), dtype=bool)
-    for b, (lo, hi, t0, t1) in enumerate(sup):
+    dl = np.abs(np.gradient(np.log10(wave), axis=1))
+    for b, (lo, hi, la, rn) in enumerate(sup):
         inside = (wave > lo + 5.0) & (wave < hi - 5.0)
         out = (wave < lo - 5.0) | (wave > hi + 5.0)
         outside[:, :, b] = out
+        mid = 0.5 * (lo + hi)
         for r in range(nt):
-            ov[r, b] = 1 if inside[r].any() else (0 if out[r].all() else -1)
+            if inside[r].any():
+                lam = wave[r][inside[r]]
+                lam = np.where(lam < mid, lam - 3.0, lam + 3.0)
+                frac = float(np.sum(np.interp(lam, la, rn) * dl[r][inside[r]]))
+                ov[r, b] = 1 if frac > THIN else -1
+            else:
+                ov[r, b] = 0 if out[r].all() else -1
     return ov, outside
 
 
@@ -397,20 +479,45 @@ def flux_rows(spec, nx, pix):
     return np.array(rows)
 
 
+def _layout(arr, lay):
+    """Same values and shape, different memory layout."""
+    if lay in (None, 'C'):
+        return arr
+    if lay == 'F':
+        return np.asfortranarray(arr)
+    if lay == 'T':
+        return np.ascontiguousarray(arr.T).T
+    if lay == 'stride':
+        base = np.zeros((2 * arr.shape[0], 3 * arr.shape[1]), dtype=arr.dtype)
+        base[::2, ::3] = arr
+        return base[::2, ::3]
+    if lay == 'be':
+        return arr if arr.dtype == bool else arr.astype(arr.dtype.newbyteorder('>'))
+    if lay == 'ro':
+        arr = arr.copy()
+        arr.setflags(write=False)
+        return arr
+    raise ValueError(lay)
+
+
 def ft_call(cfg, flux, mask, nx, coeff, loglam):
-    """Call filter_thru for configuration cfg on a float64 flux image (cast to the cfg dtype)."""
+    """Call filter_thru for configuration cfg on a float64 flux image (cast to the cfg dtype and memory layout).
+"""
     from pydl.pydlspec2d.spec2d import filter_thru
     dt = np.float64 if cfg['dtype'] == 'f8' else np.float32
+    lay = cfg.get('layout')
     kw = {}
     if cfg['form'] == 'waveimg':
-        kw['waveimg'] = (10.0 ** loglam).astype(dt)
+        kw['waveimg'] = _layout((10.0 ** loglam).astype(dt), lay)
     else:
         kw['wset'] = make_wset(nx, coeff)
     if mask is not None:
-        kw['mask'] = mask
+        kw['mask'] = _layout(mask, lay)
     if cfg['toair']:
         kw['toair'] = True
-    return np.asarray(filter_thru(flux.astype(dt), **kw), dtype=np.float64)
+    fl = _layout(flux.astype(dt), lay)
+    res = np.asarray(filter_thru(fl, **kw), dtype=np.float64)
+    return res
 
 
 def check_ft(case):
@@ -443,11 +550,11 @@ def check_ft(case):
     try:
         res = ft_call(cfg, fin, mask, nx, coeff, loglam)
     except Exception as e:
-        return [('filter_thru:exception:%s' % type(e).__name__, repr(e))], 'exc', True
+        return [('filter_thru:exception:%s%s' % (type(e).__name__, ':layout-' + cfg['layout'] if cfg.get('layout') else ''), repr(e))], 'exc', True, 0
     if res.shape != (nt, 5):
-        return [('filter_thru:shape', str(res.shape))], 'bad', True
+        return [('filter_thru:shape', str(res.shape))], 'bad', True, 0
     if not np.all(np.isfinite(res)) and not nogood:
-        return [('filter_thru:non-finite', str(res.tolist()))], 'bad', True
+        return [('filter_thru:non-finite', str(res.tolist()))], 'bad', True, 0
     scale = np.array([max(1.0, float(np.max(np.abs(flux[R])))) for R in range(nt)])
     sure = ov == 1
     rel = case['rel']
@@ -492,21 +599,25 @@ def check_ft(case):
                                 'trace %d: masked pixels set to %r change the result by %s' % (t, wv, (res[t * g + r] - res[t * g]).tolist())))
                     done = True
     nt_ = bool(sure.any())
+    ndc = int((ov[::g] == -1).sum())
     if bad:
-        return bad, 'bad', nt_
-    out = 'ok:%s:%s:%d(trace,band)overlaps%s' % (rel, cfg['form'], int(sure[::g].sum()), ':masked' if mask is not None else '')
-    return bad, out, nt_
+        return bad, 'bad', nt_, ndc
+    out = 'ok:%s:%s:%d(trace,band)overlaps%s%s' % (rel, cfg['form'], int(sure[::g].sum()), ':masked' if mask is not None else '',
+                                                  ':' + cfg['layout'] if cfg.get('layout') else '')
+    return bad, out, nt_, ndc
 
 
 # ------------------------------------------------------------------ task lists
 def ft_configs(tier):
     T = tier == 'thorough'
     cfgs = []
-    for sol in ['full3', 'stag3', 'curv2', 'rev2', 'short2']:
+    for sol in ['full3', 'stag3', 'curv2', 'rev2', 'short2', 'wing3']:
         for form in ('waveimg', 'wset'):
             for dtype in ('f8', 'f4'):
                 for toair in (False, True):
-                    if not T and (dtype == 'f4' or toair) and sol not in ('full3', 'stag3'):
+                    if not T and sol == 'wing3' and toair and dtype == 'f8':
+                        continue
+                    if not T and (dtype == 'f4' or toair) and sol not in ('full3', 'stag3', 'wing3'):
                         continue
                     cfgs.append({'sol': sol, 'form': form, 'dtype': dtype, 'toair': toair})
     return cfgs
@@ -543,7 +654,14 @@ def tasks(tier):
                     t.append({'k': 'ftlin', 'cfg': cfg, 'mask': mk, 'ncomb': ncomb, 'half': half})
             else:
                 t.append({'k': 'ftlin', 'cfg': cfg, 'mask': mk, 'ncomb': ncomb, 'half': None})
+    for sol, form, dtype, toair in ([('stag3', 'waveimg', 'f8', False), ('stag3', 'waveimg', 'f4', False), ('stag3', 'wset', 'f8', False),
+                                    ('curv2', 'waveimg', 'f8', True), ('wing3', 'waveimg', 'f4', False)]
+                                   + ([('stag3', 'wset', 'f4', True), ('rev2', 'waveimg', 'f4', True), ('wing3', 'waveimg', 'f8', True)] if T else [])):
+        for lay in ('F', 'T', 'stride', 'be', 'ro'):
+            t.append({'k': 'ftlay', 'cfg': {'sol': sol, 'form': form, 'dtype': dtype, 'toair': toair, 'layout': lay}, 'ncomb': ncomb})
     for cfg in ft_configs(tier):
+        if cfg['sol'] == 'wing3':
+            continue
         if not T and not (cfg['sol'] in ('full3', 'stag3') and not cfg['toair']):
             continue
         for dt, val in (('i4', 1), ('bool', 1), ('i4', 64)):
@@ -571,7 +689,9 @@ def _do_av(acc, case):
 
 
 def _do_ft(acc, case):
-    bad, out, nt = check_ft(case)
+    bad, out, nt, ndc = check_ft(case)
+    if ndc:
+        acc.skip('dont-care:(trace,band)-within-5A-of-band-edge-or-weight<1e-8-of-band', ndc)
     acc.case(_key(case), nt, out if not bad else 'bad:' + bad[0][0], sample=case)
     seen = set()
     for sig, msg in bad:
@@ -612,11 +732,12 @@ def run_task(task):
                     rows = [base[(start + i) % 3][rot:] + base[(start + i) % 3][:rot] for i in range(nrow)]
                     for mode in ('mag', 'flux', 'ivar'):
                         for dt in ('f8', 'f4'):
-                            case = {'f': 'ab', 'rows': rows, 'mode': mode, 'dtype': dt}
-                            bad = check_ab(case)
-                            acc.case(_key(case), True, 'ok:ab%d:%s' % (nrow, mode) if not bad else 'bad:' + bad[0][0], sample=case)
-                            for sig, msg in bad:
-                                acc.violation(sig, case, msg)
+                            for lay in ('C', 'F', 'T', 'stride', 'be', 'ro'):
+                                case = {'f': 'ab', 'rows': rows, 'mode': mode, 'dtype': dt, 'layout': lay}
+                                bad = check_ab(case)
+                                acc.case(_key(case), True, 'ok:ab3+:%s:%s' % (mode, lay) if not bad else 'bad:' + bad[0][0], sample=case)
+                                for sig, msg in bad:
+                                    acc.violation(sig, case, msg)
     elif k == 'avs':
         menu = wave_menu(task['n'])[task['lo']:task['hi']]
         for w in menu:
@@ -653,6 +774,23 @@ def run_task(task):
                     f3 = {'c': b * c0, 'imp': [[order[0], a], [order[1], b * amp]]}
                     _do_ft(acc, {'f': 'ft', 'cfg': cfg, 'mask': task['mask'], 'rel': 'lin', 'rows': [f1, f2, f3],
                                  'ab': [a, b], 'ncomb': nc})
+    elif k == 'ftlay':
+        cfg, nc = task['cfg'], task['ncomb']
+        nx = SOLS[cfg['sol']][0]
+        pix = comb(nx, nc)
+        _do_ft(acc, {'f': 'ft', 'cfg': cfg, 'mask': None, 'rel': 'const', 'rows': [{'c': 1.0}, {'c': -2.5}, {'c': 1000.0}], 'ncomb': nc})
+        for (i, j) in ((0, 1), (2, nc - 1), (nc - 2, 1)):
+            a, b, c0, amp = LIN_COEF[1]
+            f1 = {'c': 0.0, 'imp': [[i, 1.0]]}
+            f2 = {'c': c0, 'imp': [[j, amp]]}
+            f3 = {'c': b * c0, 'imp': [[i, a], [j, b * amp]]}
+            for mk in (None, {'kind': 'run', 'start': pix[2], 'len': 5, 'shift': 1}):
+                _do_ft(acc, {'f': 'ft', 'cfg': cfg, 'mask': mk, 'rel': 'lin', 'rows': [f1, f2, f3], 'ab': [a, b], 'ncomb': nc})
+        gen = {'c': 0.5, 'imp': [[j, float((j * 7) % 5 - 2)] for j in range(nc)]}
+        for dt_, val in (('i4', 1), ('bool', 1)):
+            sp = dict(kind='run', start=pix[1], len=4, shift=2, val=val, dt=dt_)
+            _do_ft(acc, {'f': 'ft', 'cfg': cfg, 'mask': sp, 'rel': 'maskind', 'rows': [gen, gen, gen], 'ncomb': nc,
+                         'wild': [1000.0, float('nan')], 'wildrows': [1, 2]})
     elif k == 'ftmask':
         cfg, nc = task['cfg'], task['ncomb']
         nx = SOLS[cfg['sol']][0]
